@@ -216,32 +216,32 @@ def run(ctx, res):
         single[f] = (owned, changed, added)
     res.extra['owned'] = {f: sorted(single[f][0]) for f in single}
     res.extra['changed'] = {f: sorted(single[f][1]) for f in single}
+    # module-level items a facility owns must disappear with it (Cli methods may stay as no-op twins)
     anchors = {
-        'history': (['history::History::push', 'history::History::next_older', 'cli::Cli::navigate_history'], ['cli::Cli::on_control_input']),
-        'autocomplete': (['cli::Cli::process_autocomplete', 'editor::Editor::autocompletion'], ['cli::Cli::on_control_input']),
-        'help': (['cli::Cli::process_help'], ['cli::Cli::process_input']),
+        'history': ['history::History::push', 'history::History::next_older', 'history::History::next_newer'],
+        'autocomplete': ['editor::Editor::autocompletion'],
+        'help': ['<command::RawCommand as service::Help>::command_help'],
     }
-    # Functions whose MIR may depend on a feature, confirmed by reading cli.rs (cfg attributes sit in exactly these bodies):
-    ALLOWED_CHANGED = {
-        'history': {'cli::Cli::on_control_input',        # Up/Down arms and the push in the Enter arm
-                    'cli::Cli::new', 'cli::Cli::from_builder',   # construct the History / PhantomData field
-                    '<cli::Cli as core::fmt::Debug>::fmt'},
-        'autocomplete': {'cli::Cli::on_control_input'},  # Tab arm
-        'help': {'cli::Cli::process_input'},             # the help decision
-    }
+
+    def wiring(np_):
+        """Functions whose code may depend on a feature: the methods (and closures) of `Cli` / `CliBuilder`, where the
+        facilities are wired in - their behaviour under every feature set is what clause W compares, with all of them
+        inlined into the event words of the public entry points - and `Debug` impls (no behaviour)."""
+        return np_.startswith(('cli::Cli::', '<cli::Cli as ', 'builder::CliBuilder::', '<builder::CliBuilder as ')) \
+            or np_.endswith(' as core::fmt::Debug>::fmt')
     for f in F.FEATURES:
-        extra = single[f][1] - ALLOWED_CHANGED[f]
+        extra = {x for x in (single[f][1] | single[f][2]) if not wiring(x)}
         good = not extra
         res.oblige("X|allowed-changed|%s" % f, good, violation=None if good else dict(
             rule='C16.unexpected-dependence', key="C16|unexpected-dependence|%s|%s" % (f, ",".join(sorted(extra))[:80]),
-            msg="disabling only `%s` changes the code of %s, which is outside the places where that facility is wired in (%s)" % (
-                f, sorted(extra), sorted(ALLOWED_CHANGED[f]))))
-    for f, (own, chg) in anchors.items():
-        good = all(a in single[f][0] for a in own) and all(c in single[f][1] for c in chg)
+            msg="disabling only `%s` changes the code of %s: code outside the Cli wiring (whose behaviour clause W compares) "
+                "depends on the feature" % (f, sorted(extra))))
+    for f, own in anchors.items():
+        good = all(a in single[f][0] for a in own)
         res.oblige("X|anchor|%s" % f, good, violation=None if good else dict(
             rule='C16.ownership', key="C16|ownership|%s" % f,
-            msg="disabling only `%s` removes %s and changes %s; expected it to remove at least %s and change %s" % (
-                f, sorted(single[f][0])[:12], sorted(single[f][1])[:12], own, chg)))
+            msg="disabling only `%s` removes %s; expected it to remove at least %s (the facility's own code is still compiled in)" % (
+                f, sorted(single[f][0])[:12], own)))
     for n in names:
         D = [f for f in F.FEATURES if f not in cfgs[n]]
         exp_removed = set().union(*[single[f][0] for f in D]) if D else set()
